@@ -388,9 +388,10 @@ impl From<InputEvent> for OutputEvent {
                     String::from_utf8(e.name().into_inner().to_vec()).expect("utf8");
                 OutputEvent::End(elem_name)
             }
-            Event::Text(t) => OutputEvent::Text(unescape_text(
-                &String::from_utf8(t.into_inner().to_vec()).expect("utf8"),
-            )),
+            // Text copied from the input (pass-through SVG, text-only elements) is
+            // kept as the original event so it is written exactly as it was read,
+            // rather than being coalesced and trimmed like generated text.
+            Event::Text(_) => OutputEvent::Other(value.event),
             Event::CData(c) => {
                 OutputEvent::CData(String::from_utf8(c.into_inner().to_vec()).expect("utf8"))
             }
